@@ -70,6 +70,13 @@ def _classes():
 def build_obj(ctx, spec):
     """spec: {'cls': name, 'kw': {...}} | {'ref'..} | expr | literal."""
     if isinstance(spec, dict):
+        if 'shared' in spec:
+            # one constant *object* the user defined once and used in
+            # several places of the same description
+            key = spec['shared']
+            if key not in SHARED:
+                SHARED[key] = build_obj(ctx, spec['value'])
+            return SHARED[key]
         if 'cls' in spec:
             cls = _classes()[spec['cls']]
             kw = {k: build_obj(ctx, v) for k, v in spec.get('kw', {}).items()}
@@ -108,8 +115,12 @@ def build_obj(ctx, spec):
     return spec
 
 
+SHARED = {}
+
+
 @op('build')
 def build(ctx, spec):
+    SHARED.clear()
     return build_obj(ctx, spec)
 
 
